@@ -435,7 +435,19 @@ impl LineProgram {
         // Advance the line, address, and operation index.
         let line_base = i64::from(self.line_encoding.line_base) as u64;
         let line_range = u64::from(self.line_encoding.line_range);
-        let line_advance = self.row.line as i64 - self.prev_row.line as i64;
+        // The difference of two u64 line numbers may need more than one DW_LNS_advance_line.
+        let mut line_delta = i128::from(self.row.line) - i128::from(self.prev_row.line);
+        while line_delta > i128::from(i64::MAX) {
+            self.instructions
+                .push(LineInstruction::AdvanceLine(i64::MAX));
+            line_delta -= i128::from(i64::MAX);
+        }
+        while line_delta < i128::from(i64::MIN) {
+            self.instructions
+                .push(LineInstruction::AdvanceLine(i64::MIN));
+            line_delta -= i128::from(i64::MIN);
+        }
+        let line_advance = line_delta as i64;
         let op_advance = self.op_advance();
 
         // Default to special advances of 0.
